@@ -203,13 +203,22 @@ def placeholders(t):
     return [m.group(0) for m in PLACEHOLDER.finditer(t) if m.group(0) not in ("{{", "}}")]
 
 
+FORMAT_MACROS = ("format", "write", "writeln", "vec", "println", "panic")
+
+
+def _templates(strings, helper=None):
+    return sorted(((s["line"], 0, s["s"], helper) for s in strings
+                   if s["ctx"].startswith("macro:") and s["ctx"].split(":")[1] in FORMAT_MACROS and placeholders(s["s"])), key=lambda x: x[0])
+
+
 def format_sites(src_fn, bodies, P):
     """pairs each format template of a source function with the origins of the values printed into its placeholders.
-    `bodies` are the MIR bodies of the function and of its closures.  Returns [(line, template, [arg descriptors])] or
-    None when templates and arguments cannot be aligned (the caller fails closed)."""
-    templ = sorted(((s["line"], 0, s["s"]) for s in src_fn["strings"]
-                    if s["ctx"].startswith("macro:") and s["ctx"].split(":")[1] in ("format", "write", "writeln", "vec", "println", "panic")
-                    and placeholders(s["s"])), key=lambda x: x[0])
+    `bodies` are the MIR bodies of the function and of its closures.  Returns (templates, arguments) for `align`.
+    Templates of helpers that were expanded into the function (inline.py) are kept apart, and so are the arguments of each
+    expansion: a helper called twice prints its templates twice."""
+    templ = _templates(src_fn.get("own_strings", src_fn["strings"]))
+    for hp, hf in sorted(src_fn.get("helper_fns", {}).items()):
+        templ.extend(_templates(hf["strings"], hp))
     args = []
     for b in bodies:
         O = X.Origins(b, P)
@@ -217,22 +226,59 @@ def format_sites(src_fn, bodies, P):
             if cs.name in ("new_display", "new_debug", "new_lower_hex", "new_upper_hex") and cs.args:
                 sp = span_tuple(cs.term["sp"]["s"]) if isinstance(cs.term.get("sp"), dict) else None
                 a = O.call_args(cs)[0]
-                args.append(((sp[1], sp[2]) if sp else (0, 0), F.rd(a), cs.name, a, b))
+                inl = b.blocks[cs.bb].get("inl")
+                args.append(((sp[1], sp[2]) if sp else (0, 0), F.rd(a), cs.name, a, b, tuple(inl) if inl else None))
     args.sort(key=lambda x: x[0])
     return templ, args
 
 
-def align(templ, args):
-    """sequential alignment of templates (source order) with printed arguments (source order)"""
-    need = sum(len(placeholders(t[2])) for t in templ)
-    if need != len(args):
-        return None
+def _instantiate(t, args, P):
+    """a placeholder that is filled with a string literal is replaced by the literal (`"const {}: .."` printed with "MIN")"""
+    out_args = []
+    pieces = re.split(r"(\{\{|\}\}|\{[^{}]*\})", t)
+    res = []
+    k = 0
+    for piece in pieces:
+        if piece.startswith("{") and piece.endswith("}") and piece not in ("{{", "}}"):
+            a = args[k]
+            k += 1
+            lit = const_str(a[3], P, a[4].crate) if piece in ("{}",) else None
+            if lit is not None and "{" not in lit and "}" not in lit:
+                res.append(lit)
+            else:
+                res.append(piece)
+                out_args.append(a)
+        else:
+            res.append(piece)
+    return "".join(res), out_args
+
+
+def align(templ, args, P=None):
+    """sequential alignment of templates (source order) with printed arguments (source order), separately for the function's
+    own templates and for every expansion of a helper; returns [(line, template, [arguments])] or None when the counts differ"""
+    groups = {}
+    for a in args:
+        groups.setdefault(a[5] if len(a) > 5 else None, []).append(a)
     out = []
-    i = 0
-    for line, col, t in templ:
-        k = len(placeholders(t))
-        out.append((line, t, args[i:i + k]))
-        i += k
+    helpers_seen = set()
+    for tag, gargs in sorted(groups.items(), key=lambda kv: (kv[0] is not None, kv[0] or ())):
+        helper = tag[0] if tag else None
+        gt = [t for t in templ if (t[3] if len(t) > 3 else None) == helper]
+        helpers_seen.add(helper)
+        need = sum(len(placeholders(t[2])) for t in gt)
+        if need != len(gargs):
+            return None
+        i = 0
+        for t in gt:
+            k = len(placeholders(t[2]))
+            text, rest = _instantiate(t[2], gargs[i:i + k], P)
+            out.append((t[0], text, rest))
+            i += k
+    # templates whose group printed nothing at all (no arguments found) cannot be aligned
+    for t in templ:
+        if (t[3] if len(t) > 3 else None) not in helpers_seen and placeholders(t[2]):
+            return None
+    out.sort(key=lambda x: x[0])
     return out
 
 
